@@ -199,6 +199,36 @@ pub fn check_message(obs: &mut Obs, spec: &Msg31, rng: &mut Rng, shape: u64, cas
         );
         return;
     }
+    // the typed views of the same fields (only present when the model is built with its optional
+    // `uom` / `chrono` features: the all-features lane) say what the plain accessors say
+    #[cfg(feature = "allfeat")]
+    {
+        use uom::si::angle::degree;
+        use uom::si::f32::Angle;
+        let typed = |a: Angle, deg: f32| a.value.to_bits() == Angle::new::<degree>(deg).value.to_bits();
+        let views = [
+            ("azimuth()", typed(ra.azimuth(), ra.azimuth_angle_degrees())),
+            ("azimuth_spacing()", typed(ra.azimuth_spacing(), ra.azimuth_spacing_degrees())),
+            ("elevation_angle()", typed(ra.elevation_angle(), ra.elevation_angle_degrees())),
+            ("collection_time()", ra.collection_time() == chrono::DateTime::from_timestamp_millis(ra.collection_timestamp())),
+        ];
+        for (name, ok) in views {
+            if !ok {
+                obs.violation(format!("typed view {} disagrees with the plain accessor", name), format!("{:?}", ra), replay.clone());
+                return;
+            }
+        }
+        obs.count("typed_views_equal_to_plain_accessors", 4);
+    }
+    // ... and equal in everything their accessors report, not only by the model's own `==`
+    if crate::volgen::radial_fingerprint(&ra) != crate::volgen::radial_fingerprint(&rb) {
+        obs.violation(
+            "radial() and into_radial() differ",
+            "the two radials compare equal but report different header fields or gate values",
+            replay,
+        );
+        return;
+    }
     let h = &spec.hdr;
     // collection time: always the header's own date-time in epoch milliseconds (whatever the
     // fields hold), and for fields inside the ICD's domain also the integer calendar's instant
